@@ -53,7 +53,20 @@ def c17mi (docH : String) (res : List String) : Verdict :=
     | ["ok", ann, name, pl, pieces, files, hash, total, acc] =>
       if acc ≠ "safe" ∨ total = "P" then vProp s!"T3-accessor-panics-on-accepted-metainfo-{acc}" tag else
       (match model with
-       | .error e => vDiff "accept" ("err " ++ errTok e) tag
+       | .error e =>
+         -- accepted although the model rejects: is what was read at least what the document says?
+         let raw : Option (Bytes × Bytes) := ((decodeImpl doc).getD []).findSome? fun v =>
+           match v with
+           | .dict d =>
+             (match dictGet d kAnnounce, infoOf d with
+              | some (.str a), some i => (match dictGet i kName with | some (.str n) => some (a, n) | _ => none)
+              | _, _ => none)
+           | _ => none
+         (match raw with
+          | some (a, n) =>
+            if ann ≠ toHex a ∨ name ≠ toHex n then vProp "T2-accepted-with-fields-that-differ-from-the-document" tag
+            else vDiff "accept" ("err " ++ errTok e) tag
+          | none => vProp "T2-accepted-without-announce-or-name-in-the-document" tag)
        | .ok m =>
          let implFields := s!"{ann} {name} {pl} {pieces} {files}"
          if implFields ≠ fieldsTok m then vProp "T2-fields-differ-from-the-document" tag
